@@ -209,7 +209,10 @@ func c06ClosureUnderLock(all []*ssa.Function, f *ssa.Function, base ssa.Value, l
 	if mc == nil {
 		return "", false
 	}
-	// uses of a function value, looking through representation changes
+	// uses of a function value, looking through representation changes and through a local variable that holds
+	// nothing else (`keep := func(...)`): calls in the parent, and calls from other closures of the parent that
+	// captured the variable (nested)
+	var nested []*ssa.Function
 	var usesOf func(v ssa.Value) (calls []ssa.Instruction, returned, other bool)
 	usesOf = func(v ssa.Value) (calls []ssa.Instruction, returned, other bool) {
 		for _, r := range *v.Referrers() {
@@ -224,6 +227,48 @@ func c06ClosureUnderLock(all []*ssa.Function, f *ssa.Function, base ssa.Value, l
 				calls = append(calls, c2...)
 				returned = returned || r2
 				other = other || o2
+			case *ssa.Store:
+				cell, isCell := u.Addr.(*ssa.Alloc)
+				if !isCell || u.Val != v || len(storesTo(cell)) != 1 {
+					other = true
+					continue
+				}
+				for _, cr := range *cell.Referrers() {
+					switch cu := cr.(type) {
+					case *ssa.Store, *ssa.DebugRef:
+					case *ssa.UnOp:
+						c2, r2, o2 := usesOf(cu)
+						calls = append(calls, c2...)
+						returned = returned || r2
+						other = other || o2
+					case *ssa.MakeClosure:
+						g := cu.Fn.(*ssa.Function)
+						for i, bnd := range cu.Bindings {
+							if bnd != ssa.Value(cell) {
+								continue
+							}
+							for _, fr := range *g.FreeVars[i].Referrers() {
+								ld, isLd := fr.(*ssa.UnOp)
+								if !isLd {
+									if _, dbg := fr.(*ssa.DebugRef); !dbg {
+										other = true
+									}
+									continue
+								}
+								for _, lr := range *ld.Referrers() {
+									if call, isCall := lr.(*ssa.Call); !isCall || call.Call.Value != ssa.Value(ld) {
+										if _, dbg := lr.(*ssa.DebugRef); !dbg {
+											other = true
+										}
+									}
+								}
+							}
+						}
+						nested = append(nested, g)
+					default:
+						other = true
+					}
+				}
 			default:
 				other = true
 			}
@@ -237,32 +282,67 @@ func c06ClosureUnderLock(all []*ssa.Function, f *ssa.Function, base ssa.Value, l
 	if !returned {
 		held := heldAt(par, heldSet{})
 		lp := accessPath(pbase) + "." + lock
-		okHeld := true
-		for _, at := range append([]ssa.Instruction{mc}, uses...) {
-			if held[at][lp] < mode {
-				okHeld = false
+		callersHold := -1 // unknown
+		// under: every point of the parent in `ats` lies where the lock is held — locally, or (for an unexported
+		// parent that relies on its callers for the lock of its own parameter) in every caller
+		under := func(ats []ssa.Instruction) (string, bool) {
+			okHeld := true
+			for _, at := range ats {
+				if held[at][lp] < mode {
+					okHeld = false
+				}
 			}
-		}
-		if okHeld {
-			return "synchronously inside " + FnName(par) + " while it holds " + lock, true
-		}
-		if par.Parent() != nil {
-			if w, ok := c06ClosureUnderLock(all, par, pbase, lock, mode, d+1); ok {
-				return "synchronously inside " + FnName(par) + ", which runs only " + w, true
+			if okHeld {
+				return "synchronously inside " + FnName(par) + " while it holds " + lock, true
 			}
-			return "", false
-		}
-		// the parent is an unexported function that relies on its callers for the lock of its own parameter
-		if prm := c05ParamOf(pbase); prm != nil && prm.Parent() == par {
-			for i, q := range par.Params {
-				if q == prm {
-					if ok, _ := c06CallersHold(all, par, i, lock, mode, d+1); ok {
-						return "synchronously inside " + FnName(par) + ", every caller of which holds " + lock, true
+			if par.Parent() != nil {
+				if w, ok := c06ClosureUnderLock(all, par, pbase, lock, mode, d+1); ok {
+					return "synchronously inside " + FnName(par) + ", which runs only " + w, true
+				}
+				return "", false
+			}
+			if callersHold < 0 {
+				callersHold = 0
+				if prm := c05ParamOf(pbase); prm != nil && prm.Parent() == par {
+					for i, q := range par.Params {
+						if q == prm {
+							if ok, _ := c06CallersHold(all, par, i, lock, mode, d+1); ok {
+								callersHold = 1
+							}
+						}
 					}
 				}
 			}
+			if callersHold == 1 {
+				return "synchronously inside " + FnName(par) + ", every caller of which holds " + lock, true
+			}
+			return "", false
 		}
-		return "", false
+		why, ok := under(append([]ssa.Instruction{mc}, uses...))
+		if !ok {
+			return "", false
+		}
+		// closures of the parent that call f through the captured variable must themselves run only under the lock
+		for _, g := range nested {
+			var gmc *ssa.MakeClosure
+			AllInstrs(par, func(in ssa.Instruction) {
+				if m, isM := in.(*ssa.MakeClosure); isM && m.Fn == ssa.Value(g) {
+					gmc = m
+				}
+			})
+			if gmc == nil || g.Parent() != par || d > 2 {
+				return "", false
+			}
+			n0 := len(nested)
+			gu, gret, goth := usesOf(gmc)
+			if gret || goth || len(nested) != n0 {
+				return "", false
+			}
+			if _, ok := under(append([]ssa.Instruction{gmc}, gu...)); !ok {
+				return "", false
+			}
+		}
+		return why, true
 	}
 	if len(uses) > 0 || par.Parent() != nil {
 		return "", false
@@ -941,13 +1021,24 @@ func c06R2Memory(c *Ctx) {
 		a := call.Common().Args
 		return len(a) > 0 && c05IsFieldAddrOf(a[0], "~/internal/cas.Memory", c05Cur.F("cas.content"))
 	}
+	// operations on the map, sync.Map's own or forwarded by a thin wrapper type
+	mapCalls := func(g *ssa.Function, method string) []*c05MapView {
+		var out []*c05MapView
+		for _, call := range Calls(g, func(string) bool { return true }) {
+			if mv := c05MapOp(call); mv != nil && mv.Name == method && onMap(call) {
+				out = append(out, mv)
+			}
+		}
+		return out
+	}
 	// instructions of Push that write the map, directly or through a helper
 	var writers []ssa.Instruction
 	for _, call := range Calls(fn, func(string) bool { return true }) {
-		n := CalleeName(call)
+		n := c05MapOpName(call)
 		if onMap(call) && (c05SyncMapWriters[n] || c05SyncMapRemovers[n]) {
 			writers = append(writers, call.(ssa.Instruction))
-		} else if h := c05Helper(call, fn); h != nil && reachesCall(h, 2, func(n string, cc ssa.CallInstruction) bool {
+		} else if h := c05Helper(call, fn); h != nil && reachesCall(h, 2, func(_ string, cc ssa.CallInstruction) bool {
+			n := c05MapOpName(cc)
 			return onMap(cc) && (c05SyncMapWriters[n] || c05SyncMapRemovers[n])
 		}) {
 			writers = append(writers, call.(ssa.Instruction))
@@ -956,11 +1047,12 @@ func c06R2Memory(c *Ctx) {
 	resultFact := func(method string, idx int) c05BoolFact {
 		return func(g *ssa.Function) (te, fe []Edge, isVal func(ssa.Value) bool) {
 			vals := map[ssa.Value]bool{}
-			for _, call := range CallsTo(g, method) {
-				if !onMap(call) {
-					continue
+			for _, mv := range mapCalls(g, method) {
+				r := mv.Ok
+				if idx == 0 {
+					r = mv.Value
 				}
-				if r := ResultOf(call, idx); r != nil {
+				if r != nil {
 					for a := range Aliases(r) {
 						vals[a] = true
 					}
@@ -977,12 +1069,10 @@ func c06R2Memory(c *Ctx) {
 	}
 	nLOS := 0
 	for _, e := range c05TreeEnvs(c05Root(fn), 3) {
-		for _, call := range CallsTo(e.Fn, "(*sync.Map).LoadOrStore") {
-			if onMap(call) {
-				nLOS++
-				if ResultOf(call, 1) == nil {
-					c.Violation(R, tn+"|loaded-branch-refuses", call.Pos(), "the `loaded` result of LoadOrStore is discarded: a push of existing content reports success")
-				}
+		for _, mv := range mapCalls(e.Fn, "(*sync.Map).LoadOrStore") {
+			nLOS++
+			if mv.Ok == nil {
+				c.Violation(R, tn+"|loaded-branch-refuses", mv.Call.Pos(), "the `loaded` result of LoadOrStore is discarded: a push of existing content reports success")
 			}
 		}
 	}
@@ -1036,6 +1126,55 @@ func c06R2OCIStorage(c *Ctx) {
 		}
 	}
 	if stat == nil {
+		// the existence check extracted into a helper that receives the target (checkVacant(target, expected)): the helper
+		// refuses on its Stat hit, returns nil only behind the Stat miss, Push returns its error and goes on only when nil
+		for _, hc := range Calls(fn, func(string) bool { return true }) {
+			h := c05Helper(hc, fn)
+			if h == nil || ErrResultIndex(h.Signature) < 0 || ErrOf(hc) == nil {
+				continue
+			}
+			for i, a := range hc.Common().Args {
+				if !SameValue(a, target) || i >= len(h.Params) {
+					continue
+				}
+				var hHit, hMiss []Edge
+				var hStat ssa.CallInstruction
+				for _, sc := range CallsTo(h, "os.Stat", "os.Lstat") {
+					if c05ParamOf(sc.Common().Args[0]) == h.Params[i] {
+						hStat = sc
+						hHit = append(hHit, c05NilEdgesOf(sc)...)
+						_, m, _ := NilTests(h, Aliases(ErrOf(sc)))
+						hMiss = append(hMiss, m...)
+					}
+				}
+				if hStat == nil {
+					continue
+				}
+				ok, why := c06Refusal(c, h, hHit, "~/errdef.ErrAlreadyExists", c06FsEffectCalls(h, isCreate))
+				if ok {
+					if r := c05ErrFlow(hc, ErrFlowOpts{}); !r.OK {
+						ok, why = false, "the refusal of "+FnName(h)+" is not returned by Push: "+r.Detail
+					}
+				}
+				c.Check(R, tn+"|existing-blob-refused", hStat.Pos(), ok, why)
+				ok2 := c05DeferKeepsError(h) == ""
+				for _, at := range c05MaybeNilAtoms(h) {
+					if !c05AtomMustPass(at, newCut().Edges(hMiss...)) {
+						ok2 = false
+					}
+				}
+				bad := ""
+				for _, e := range effects {
+					if !MustPass(e, newCut().Edges(c05NilEdgesOf(hc)...)) {
+						ok2 = false
+						bad = c.P.Pos(e.Pos())
+					}
+				}
+				c.Check(R, tn+"|effects-only-after-stat-miss", hStat.Pos(), ok2 && len(effects) > 0,
+					ifelse(ok2, fmt.Sprintf("%d file-creating effect(s) all lie behind the nil result of %s, which it gives only behind the Stat error edge", len(effects), FnName(h)), "a file-creating effect "+bad+" is reachable without the existence check"))
+				return
+			}
+		}
 		c.Violation(R, tn+"|existing-blob-refused", fn.Pos(), "Push does not Stat the rename target any more: pushing an existing blob is not refused up front")
 		return
 	}
